@@ -14,6 +14,7 @@ var ownTriggers = map[string][]string{
 	"C05": {"len-merge-put"},
 	"C08": {"snapshot-reserved"},
 	"C11": {"put-delete", "merge-absent"},
+	"C16": {"put-delete"}, // leaves sorted-index entries for dead rows behind: Ascend must still skip them
 	"C12": {"dup-key-in-txn", "concurrent-key-insert"},
 	"C17": {"ttl-change-during-pass"},
 	"C18": {"schema-change-beside-activity", "growth-beside-readers", "enum-write-beside-readers"},
